@@ -704,13 +704,22 @@ def _run_one(ctx, case, rec):
     if not probs and variant == "tdvp2" and case.get("fullrank"):
         try:
             back = c05.make_algo(case, variant, algo.state, Hneg, dt, dt)
-            for _ in range(case["steps"]):
-                back.run_one_time_step()
-            vb = dense.ttns_vector(back.state, order)
-            err = np.linalg.norm(vb - v0) / np.linalg.norm(v0)
-            ctx.tally("reversibility_checked", True)
-            if err > 1e-7 * tf:
-                probs.append(f"a step with -H does not undo a step with H (rel. err {err:.2e})")
+            # "A step with -H undoes a step with H" is a statement about ONE scheme, i.e. one sweep order.  The sweep order
+            # is computed at construction from the children ORDER of the state, which a step may permute (C02: children
+            # up to order); a new object built from the evolved state can therefore sweep the siblings in another order,
+            # and two different palindromic splittings undo each other only to O(dt^3) (false alarm of this oracle found
+            # by the thorough tier, seed 1: 5-node tree, rel. err 5e-6 scaling as dt^3).  The reverse run is judged only
+            # when it uses the same update path as the forward run.
+            if list(back.update_path) != list(algo.update_path):
+                ctx.tally("reversibility_checked", "skipped (new object sweeps the siblings in another order)")
+            else:
+                for _ in range(case["steps"]):
+                    back.run_one_time_step()
+                vb = dense.ttns_vector(back.state, order)
+                err = np.linalg.norm(vb - v0) / np.linalg.norm(v0)
+                ctx.tally("reversibility_checked", True)
+                if err > 1e-7 * tf:
+                    probs.append(f"a step with -H does not undo a step with H (rel. err {err:.2e})")
         except Exception as e:          # noqa: BLE001
             probs.append(f"reverse step raised {type(e).__name__}: {str(e)[:120]}")
     if probs:
